@@ -78,3 +78,30 @@ fn configure_a1() {
     drop(b);
     std::mem::forget(bus);
 }
+
+/// "It first obtains the sign's acknowledgement of the matching receive request": the answer to
+/// every request (first attempt and retries) is arbitrary; anything but the matching own ack must
+/// stop the transfer before any chunk / count is sent.  Empty page list, all three attempts.
+#[kani::proof]
+#[kani::stub(std::fmt::format, crate::ctl::no_format)]
+fn pages_p0_ack_required() {
+    let own: u16 = kani::any();
+    let items: [[u8; 16]; 0] = [];
+    let pages: Vec<flipdot_core::Page<'static>> = Vec::new();
+    let mut sb = SymBus::<0, 16>::new(own, Call::SendPages, items, Replies::ConformantAckArbitrary, false, true, 0);
+    sb.rich = false;
+    let bus = std::rc::Rc::new(std::cell::RefCell::new(sb));
+    let dynbus: std::rc::Rc<std::cell::RefCell<dyn flipdot_core::SignBus>> = bus.clone();
+    let sign = flipdot::Sign::new(dynbus, flipdot_core::Address(own), any_sign_type());
+    let r = sign.send_pages(&pages);
+    let res = class_flip(&r);
+    let b = bus.borrow();
+    assert!(b.ctl.phase == Phase::Done, "C09: send_pages returned before the conversation was complete");
+    assert!(outcome_matches(b.ctl.outcome, res), "C09: send_pages result does not match the conversation");
+    kani::cover!(res == Res::Unexpected && b.ctl.attempts == 2, "retry request not acknowledged");
+    kani::cover!(matches!(res, Res::OkManual | Res::OkAutomatic), "sent");
+    drop(b);
+    std::mem::forget(r);
+    std::mem::forget(sign);
+    std::mem::forget(bus);
+}
